@@ -5,6 +5,8 @@ use serde_json::{json, Value};
 use std::collections::HashMap;
 use vharness::*;
 
+mod fe_damage;
+mod fe_grammar;
 mod fe_lexer;
 
 fn main() {
@@ -33,6 +35,18 @@ fn main() {
         "lexer" => run_cases(cases, max_fail, fe_lexer::lexer_case),
         "lexinc" => fe_lexer::run_lexinc(cases, max_fail, &opts),
         "lexchain" => run_cases(cases, max_fail, fe_lexer::lexchain_case),
+        "damage" => {
+            let stride: usize = opts.get("dstride").and_then(|s| s.parse().ok()).unwrap_or(1);
+            run_cases(cases, max_fail, move |_t, c| fe_damage::damage_case(c, stride))
+        }
+        "grammar" => {
+            let layouts: Vec<String> = opts
+                .get("layouts")
+                .map(|s| s.split(',').map(|x| x.to_string()).collect())
+                .unwrap_or_else(|| vharness::prog::LAYOUTS.iter().map(|s| s.to_string()).collect());
+            let gaps: usize = opts.get("gaps").and_then(|s| s.parse().ok()).unwrap_or(0);
+            run_cases(cases, max_fail, move |_t, c| fe_grammar::grammar_case(c, &layouts, gaps))
+        }
         _ => {
             eprintln!("unknown mode {mode}");
             std::process::exit(2);
